@@ -41,12 +41,18 @@ class HRel:
 
 
 class HSet:
-    def __init__(self, arr):
+    """a list of pages viewed as the set of its elements plus its length (duplicates count in `n`)"""
+    def __init__(self, arr, n=None):
         self.arr = arr
+        self.n = z3.IntVal(0) if n is None else n
         self.items = None
 
     def copy(self):
-        return HSet(self.arr)
+        return HSet(self.arr, self.n)
+
+
+# number of template pages not marked, as a function of the marked set (finite table: a natural number)
+CU = z3.Function("CARD_UNMARKED", TSet, z3.IntSort())
 
 
 M0 = z3.Const("M@entry", TSet)
@@ -69,7 +75,9 @@ def make_abstract_local(x, st, kind):
 def havoc_abstract(x, st, v):
     o = st.heap[v.t]
     if isinstance(o, HSet):
-        st.heap[v.t] = HSet(z3.Const(fresh_name("hv_set"), TSet))
+        n = z3.Int(fresh_name("hv_len"))
+        st.pc.append(n >= 0)
+        st.heap[v.t] = HSet(z3.Const(fresh_name("hv_set"), TSet), n)
     elif isinstance(o, HRel):
         st.heap[v.t] = HRel(z3.Const(fresh_name("hv_rel"), Rel))
     elif isinstance(o, HKinds):
@@ -92,20 +100,21 @@ def set_method(x, st, ref, o: HSet, name, pos, node):
         if t is None:
             raise OutOfReach("append of a non-page to an abstract page set")
         o.arr = z3.Store(o.arr, t, True)
+        o.n = o.n + 1
         return [(st, NONE)]
     if name == "pop":
         p = z3.Const(fresh_name("popped"), Title)
         st.pc.append(z3.Select(o.arr, p))       # pop() of a non-empty list (guarded by the loop test)
         o.arr = z3.Store(o.arr, p, False)
+        o.n = o.n - 1
         return [(st, V("page", {"title": p, "npe": None}))]
     raise OutOfReach("abstract set method " + name)
 
 
 def set_len(x, st, o: HSet):
-    n = z3.Int(fresh_name("card"))
-    st.pc.append(n >= 0)
-    st.pc.append((n == 0) == (o.arr == EMPTY))
-    return n
+    st.pc.append(o.n >= 0)
+    st.pc.append((o.n == 0) == (o.arr == EMPTY))
+    return o.n
 
 
 def rel_index(x, st, ref, o: HRel, key):
@@ -196,7 +205,11 @@ def call_abstract(x, st, handler, pos, kw, node):
         t = title_of(pos[0])
         if t is None:
             raise OutOfReach("set_template_pre_expand of a non-title")
-        st.ghost["M"] = V("zarr", z3.If(z3.Select(T_, t), z3.Store(M, t, True), M))
+        M2 = z3.If(z3.Select(T_, t), z3.Store(M, t, True), M)
+        st.ghost["M"] = V("zarr", M2)
+        # cardinality of the unmarked templates (the table is finite): marking an unmarked template removes one
+        st.pc.append(z3.If(z3.And(z3.Select(T_, t), z3.Not(z3.Select(M, t))),
+                           z3.And(CU(M2) == CU(M) - 1, CU(M) >= 1), CU(M2) == CU(M)))
         # the UPDATE makes the memo incoherent unless the real function clears it (C10 contract of
         # set_template_pre_expand: ensures memo_coherent()); taken from the registry
         c10 = x.reg.by_target.get("core:Wtp.set_template_pre_expand")
@@ -226,7 +239,7 @@ def call_abstract(x, st, handler, pos, kw, node):
 
 # ------------------------------------------------------------------ clause builtins
 
-CLAUSE_BUILTINS = {"was_marked", "children_well_formed", "ends_with_node_or_empty", "processed_n", "forall_t", "forall_n", "imp", "all_of", "any_of", "marked", "is_template", "member",
+CLAUSE_BUILTINS = {"unmarked", "stack_len", "was_marked", "children_well_formed", "ends_with_node_or_empty", "processed_n", "forall_t", "forall_n", "imp", "all_of", "any_of", "marked", "is_template", "member",
                    "related", "uses", "flag", "key", "in_S", "processed", "same", "neg"}
 
 
@@ -246,6 +259,14 @@ def clause_builtin(x, st, name, pos, kw, node, chain):
         return [(st, vbool(z3.And(*[x.truth_st(p, st) for p in pos])))]
     if name == "any_of":
         return [(st, vbool(z3.Or(*[x.truth_st(p, st) for p in pos])))]
+    if name == "unmarked":            # number of template pages not (yet) marked
+        u = CU(st.ghost["M"].t)
+        st.pc.append(u >= 0)
+        return [(st, vint(u))]
+    if name == "stack_len":
+        o = st.heap[pos[0].t]
+        st.pc.append(o.n >= 0)
+        return [(st, vint(o.n))]
     if name == "was_marked":          # marked before the analysis started (ghost field at entry)
         return [(st, vbool(z3.Select(M0, tt(pos[0]))))]
     if name == "marked":
